@@ -32,6 +32,7 @@ import (
 	"encoding/json"
 	"fmt"
 	"io"
+	"os"
 	"strings"
 	"testing"
 
@@ -1376,8 +1377,13 @@ func TestVerifC08(t *testing.T) {
 		return true
 	}
 	// evalVariant: one read pair x quality patterns x every configuration, fresh arena each
-	allCfgs := c08configs([]int{0, 2})
+	cfgs02 := c08configs([]int{0, 2})
+	cfgs025 := c08configs([]int{0, 2, 5}) // 5 = default of obipairing --delta
 	evalVariant := func(kind, va, vb, vu string, a0, b0 int, pats []string) {
+		allCfgs := cfgs02
+		if kind == "long" {
+			allCfgs = cfgs025
+		}
 		for _, pat := range pats {
 			qa, qb := c08quals(pat, len(va), false), c08quals(pat, len(vb), true)
 			sa, sb := c08mkseq("A", va, qa), c08mkseq("B", vb, qb)
@@ -1445,6 +1451,7 @@ func TestVerifC08(t *testing.T) {
 		}
 		r.Bound("v_long_sources", lsrc)
 		r.Bound("v_long_fragment_lengths", Ls)
+		r.Bound("v_long_configs", "as (i) with delta {0,2,5}")
 		r.Bound("v_long_geometries", "first read of length L-1, L-5, 2L/3, L/2, 20, 7 x every overlap 0..length, both orders; inner read of length 3, 4, 11, L/2 at every offset of the whole fragment, both orders")
 		r.Bound("v_long_variants", "error free (u40, alt, ramp); one substitution / deletion / insertion at positions 0, 1, n/2, n-2, n-1 (thorough: + every 4th) of either read (alt, u93)")
 		for _, src := range lsrc {
@@ -1483,8 +1490,22 @@ func TestVerifC08(t *testing.T) {
 		}
 		return true
 	}
-	// cheap sections first: under an internal deadline the bulk section (i) is the one cut short
-	if !secIII() || !secIV() || !secV() || !secII() || !secI() {
+	// cheap sections first: under an internal deadline the bulk section (i) is the one cut short.
+	// VERIF_C08_SECTIONS (development only, e.g. "iv,v") restricts the run to some sections.
+	only := os.Getenv("VERIF_C08_SECTIONS")
+	for _, sec := range []struct {
+		name string
+		run  func() bool
+	}{{"iii", secIII}, {"iv", secIV}, {"v", secV}, {"ii", secII}, {"i", secI}} {
+		if only != "" && !strings.Contains(","+only+",", ","+sec.name+",") {
+			continue
+		}
+		if !sec.run() {
+			return
+		}
+	}
+	if only != "" {
+		r.Note("development run restricted to sections %s", only)
 		return
 	}
 	r.RequireNonVacuous("indel_variants_delA")
